@@ -253,10 +253,26 @@ func convertSlice(ports [][]uint16) []byte {
 	return b
 }
 
+// safeDecode runs a go-pfcp field decoder. Those decoders index past the end
+// of IEs whose inner length or flag octets are inconsistent with the IE
+// length; report that as a decoding error instead of taking the UPF down.
+func safeDecode(f func() error) (err error) {
+	defer func() {
+		if p := recover(); p != nil {
+			err = errors.Errorf("malformed IE: %v", p)
+		}
+	}()
+	return f()
+}
+
 func (g *Gtp5g) newSdfFilter(i *ie.IE, srcIf uint8) (nl.AttrList, error) {
 	var attrs nl.AttrList
 
-	v, err := i.SDFFilter()
+	var v *ie.SDFFilterFields
+	err := safeDecode(func() (e error) {
+		v, e = i.SDFFilter()
+		return e
+	})
 	if err != nil {
 		return nil, err
 	}
@@ -570,7 +586,11 @@ func (g *Gtp5g) newForwardingParameter(ies []*ie.IE) (nl.AttrList, error) {
 		case ie.DestinationInterface:
 		case ie.NetworkInstance:
 		case ie.OuterHeaderCreation:
-			v, err := x.OuterHeaderCreation()
+			var v *ie.OuterHeaderCreationFields
+			err := safeDecode(func() (e error) {
+				v, e = x.OuterHeaderCreation()
+				return e
+			})
 			if err != nil {
 				break
 			}
